@@ -163,8 +163,8 @@ func TestVF_C07(t *testing.T) {
 			}
 			srcTree := vfSnapshot(src)
 			repeats := 1
-			if !expectFail && r.Intn(3) == 0 {
-				repeats = 3
+			if !expectFail && scen != "longname" && r.Intn(3) == 0 {
+				repeats = 3 // (a 255-byte name cannot be repeated: name.0 would exceed the file-name limit)
 			}
 			c.Replay(map[string]interface{}{"cfg": cfg, "scenario": scen, "prior": prior, "repeats": repeats})
 			for rep := 0; rep < repeats; rep++ {
